@@ -19,6 +19,11 @@ STREAMS = {
                 overlay={'cmd/thermal-recorder/zz_verif_zz_main.go': 'thermal-recorder/zz_verif_main.go',
                          'cmd/thermal-recorder/zz_verif_fs.go': 'thermal-recorder/zz_verif_fs.go',
                          'cmd/thermal-recorder/zz_verif_e2e.go': 'thermal-recorder/zz_verif_e2e.go'}),
+    'daemon': dict(daemon='./cmd/thermal-recorder', confirm=True,
+                   overlay={'cmd/thermal-recorder/zz_verif_zz_main.go': 'thermal-recorder/zz_verif_main.go',
+                            'cmd/thermal-recorder/zz_verif_fs.go': 'thermal-recorder/zz_verif_fs.go',
+                            'cmd/thermal-recorder/zz_verif_e2e.go': 'thermal-recorder/zz_verif_e2e.go',
+                            'cmd/thermal-recorder/zz_verif_daemon.go': 'thermal-recorder/zz_verif_daemon.go'}),
     'conc': dict(daemon='./cmd/thermal-recorder', race=True,
                  overlay={'cmd/thermal-recorder/zz_verif_zz_main.go': 'thermal-recorder/zz_verif_main.go',
                           'cmd/thermal-recorder/zz_verif_fs.go': 'thermal-recorder/zz_verif_fs.go',
@@ -59,7 +64,8 @@ E2E_RULE = ('generated config.toml (min/max/preview secs, trigger frames, motion
             'ParseConfig + a generated socket byte stream (YAML header from the real encoder, Boson frames of 5x6..10x8 and Lepton 160x120 frames with telemetry, clear markers, bad frames, '
             'test-recording requests, optional cut inside the last item) written in random segments through net.Pipe into the real handleConn; every finished file decoded with the '
             'standard reader and compared field by field and pixel by pixel with the composed model; non-trivial = at least one finished file; distinct by op text')
-E2E_TRUSTED = ['overlay harness in package main of cmd/thermal-recorder (init() hijack); window clock injected through Window.Now', 'D-Bus calls fail fast in the sandbox']
+E2E_TRUSTED = ['overlay harness in package main of cmd/thermal-recorder (init() hijack); window clock injected through Window.Now', 'D-Bus calls fail fast in the sandbox',
+               'daemon stream: the real runMain in a child process per case, with a private dbus-daemon (system-bus configuration, everything allowed) as the system bus, a real unix socket, real clock (cases without a recording window only); test-recording requests go through the real D-Bus method']
 
 PROPS = {
     'C19': dict(
@@ -104,8 +110,8 @@ PROPS = {
     ),
     'C03': dict(
         lean=['Props.C03', 'Props.C03Spec', 'Props.PipeC03', 'Props.FactsProc'],
-        streams=['processor', 'e2e'],
-        project={'processor': r'^< (md|m\.|re|rs|ret|panic)', 'e2e': r'^< config'}, rule=PROC_RULE, trusted=PROC_TRUSTED,
+        streams=['processor', 'e2e', 'daemon'],
+        project={'processor': r'^< (md|m\.|re|rs|ret|panic)', 'e2e': r'^< config', 'daemon': r'^< start'}, rule=PROC_RULE, trusted=PROC_TRUSTED,
         assumptions=PROC_ASSUME['C03'],
     ),
     'C04': dict(
@@ -129,8 +135,8 @@ PROPS = {
     ),
     'C17': dict(
         lean=['Props.C17', 'Props.C17Spec', 'Props.PipeC17', 'Props.FactsProc', 'Props.Pipeline'],
-        streams=['processor', 'e2e', 'names'],
-        project={'processor': r'^< (c\.|t\.|ret|panic)'}, rule=PROC_RULE, trusted=PROC_TRUSTED,
+        streams=['processor', 'e2e', 'names', 'daemon'],
+        project={'processor': r'^< (c\.|t\.|ret|panic)', 'daemon': r'^$'}, rule=PROC_RULE, trusted=PROC_TRUSTED,
         assumptions=PROC_ASSUME['C17'],
     ),
     'C06': dict(
@@ -172,8 +178,8 @@ PROPS = {
     ),
     'C10': dict(
         lean=['Props.C10'],
-        streams=['fs', 'names', 'e2e'],
-        project={'fs': r'^< (?!sys write)', 'e2e': r'^$'},
+        streams=['fs', 'names', 'e2e', 'daemon'],
+        project={'fs': r'^< (?!sys write)', 'e2e': r'^$', 'daemon': r'^< (ls|start|dir)'},
         rule='op sequences of the real motion, test and continuous CPTVFileRecorders (start / write n frames / stop / discard) run under strace; every '
              'system call is a crash point at which the directory model is checked; each case ends with a simulated crash (open recordings abandoned), '
              'decoding of every finished file with the standard reader and the real start-up clean-up; non-trivial = at least one rename; distinct by op text',
@@ -183,8 +189,8 @@ PROPS = {
     ),
     'C14': dict(
         lean=['Props.C14', 'Props.C14Daemons', 'Props.FactsWiring', 'Props.Pipeline'],
-        streams=['e2e', 'leptond', 'leptondloop', 'processor', 'detector'],
-        project={'processor': r'^< det', 'detector': r'^$'},
+        streams=['e2e', 'leptond', 'leptondloop', 'processor', 'detector', 'daemon'],
+        project={'processor': r'^< det', 'detector': r'^$', 'daemon': r'^< (second|conn|header|start|info)'},
         rule=E2E_RULE + '; leptond stream: the real sendCameraSpecs of the camera daemon run on a lepton3.Lepton3 whose I2C command interface is a register-level fake (serials up to 2^63-1, '
              'both part numbers and unknown ones, firmware bytes 0..255, failing serial / firmware queries), sent over a unix socket and read with the real ReadHeaderInfo and with the Lean decoder',
         trusted=E2E_TRUSTED + ['yaml.v1 (camera header): the model uses a decoder for the image of the encoder on flat maps, validated against the real decoder',
@@ -193,7 +199,7 @@ PROPS = {
     ),
     'C11': dict(
         lean=['Props.C11', 'Props.C13Parse', 'Props.FactsWiring', 'Props.FactsProc', 'Props.Pipeline', 'Props.C11Thr'],
-        streams=['e2e', 'throttle', 'parse'],
+        streams=['e2e', 'throttle', 'parse', 'daemon'],
         project={'parse': r'^$'},
         rule=E2E_RULE,
         trusted=E2E_TRUSTED + ['go-cptv compression + gzip: validated by decoding every produced file with the standard reader, not proved'],
